@@ -373,8 +373,8 @@ def gen_aesfail(rng, tier, mult):
         r = rng.fork("af%d" % ci)
         ops = []
         for _ in range(r.range(1, 3)):
-            ops.append("aesfail %d %s %s %s" % (r.range(0, 6), vlib.hx(r.bytes(r.choice([16, 32]))), vlib.hx(r.bytes(16)),
-                                                vlib.hx(r.bytes(r.choice([16, 32])))))
+            ops.append("aesfail %d %s %s %s%s" % (r.range(0, 6), vlib.hx(r.bytes(r.choice([16, 32]))), vlib.hx(r.bytes(16)),
+                                                  vlib.hx(r.bytes(r.choice([16, 32]))), " mis" if r.chance(1, 3) else ""))
         cases.append(ops)
     return cases
 
@@ -382,11 +382,14 @@ def gen_aesfail(rng, tier, mult):
 def aesfail_component():
     return vlib.Component(
         "aes-selftest-allocfail", "h_aesfail.c",
-        ["crypto/crypto_aes_aesni.c", "cpusupport/cpusupport_x86_aesni.c", "util/insecure_memzero.c", "util/warnp.c"],
+        ["crypto/crypto_aes_aesni.c", "crypto/crypto_aesctr_aesni.c", "cpusupport/cpusupport_x86_aesni.c",
+         "util/insecure_memzero.c", "util/warnp.c"],
         ["aesfailmon", "model"], gen_aesfail, nontrivial=lambda c: any(not o.startswith("aesfail 0 ") for o in c),
-        rule="fresh dispatch state; the k-th (k=0..6) malloc of the first crypto_aes_key_expand fails (self-test key or result); a second "
-             "expansion follows; the FIRST key is then used: NULL or FIPS-197 ciphertexts, nothing else; non-trivial = a failure is injected",
-        monitor_args=["aesfailmon"], ignore_l2=True, ldflags=["-Wl,--wrap=malloc", "-lcrypto"],
+        rule="fresh dispatch state of crypto_aes.c and crypto_aesctr.c; the k-th (k=0..6) malloc of the first crypto_aes_key_expand fails "
+             "(self-test key or result); a second expansion follows; the FIRST key is then used for a block and for a 48-byte AES-CTR call: NULL or "
+             "FIPS-197 / SP 800-38A output, nothing else; a third of the ops hand the library blocks that are 8 mod 16 aligned; non-trivial = a failure is injected",
+        monitor_args=["aesfailmon"], ignore_l2=True, ldflags=["-Wl,--wrap=malloc,--wrap=free", "-lcrypto"],
+        extra=[os.path.join(vlib.VERIF, "harness", "h_aesfail_ctr.c")],
         classify=lambda case, out: ["aesfail:" + ("fail" if o.startswith("fail") else "ct") for o in out])
 
 
